@@ -53,6 +53,7 @@ namespace vf
         long          fail_at = -1; // index of the attempt that fails (0-based), -1: never
         int           fail_kind = 0; // 0: std::bad_alloc, 1: foonathan out_of_memory
         long          fired = 0, refused_by_budget = 0;
+        long          own_bad_alloc = 0; // the probe itself could not serve (overflowing size, above 2 GiB, region full, malloc failed)
         bool          check_lifo  = false;
         bool          exact_align = true;
         std::uint64_t next_id     = 1;
@@ -126,12 +127,14 @@ namespace vf
             if (count != 0 && n / count != size)
             {
                 // overflowing request: a real allocator would fail
+                ++own_bad_alloc;
                 throw std::bad_alloc();
             }
             std::size_t total = n + 2 * canary + 2 * align + 16;
             if (total < n || n > (std::size_t(1) << 31))
             {
                 resource_exhausted() = true;
+                ++own_bad_alloc;
                 throw std::bad_alloc();
             }
             char* raw;
@@ -140,6 +143,7 @@ namespace vf
                 if (std::size_t(region_end - region_cur) < total)
                 {
                     resource_exhausted() = true;
+                    ++own_bad_alloc;
                     throw std::bad_alloc();
                 }
                 if (region_down)
@@ -154,7 +158,10 @@ namespace vf
             {
                 raw = static_cast<char*>(std::malloc(total));
                 if (!raw)
+                {
+                    ++own_bad_alloc;
                     throw std::bad_alloc();
+                }
                 std::memset(raw, 0xA5, total);
             }
             auto a = reinterpret_cast<std::uintptr_t>(raw + (region ? region_gap : canary));
